@@ -77,7 +77,7 @@ def split_blocks(path):
         ln = ln.rstrip("\n")
         if not ln:
             continue
-        if ln.startswith('{"e":"reset"') and cur:
+        if '"e":"reset"' in ln and cur:
             blocks.append(cur)
             cur = []
         cur.append(ln)
